@@ -265,12 +265,17 @@ class C13(Base):
             return "writer form %s != '[' + string form %s" % (wp[1], sp[1])
         if len(inp) <= 8192 and LITERAL_BODY.fullmatch(s) and d.get("f", "na") == "na":      # (long inputs skip the bundle path)
             return "the parser does not admit a string literal whose escapes are all well-formed (\\\\, \\\", \\uXXXX, \\UXXXXXX with hex digits of either case)"
-        for k in ("f", "r", "k", "t", "q"):
+        for k in ("f", "r", "k", "t", "q", "y"):
             v = d.get(k, "na")
             if v.startswith("na"):
                 continue
             if v == "panic" or v.startswith("err"):
                 return "formatting the admitted literal failed: %s:%s" % (k, v)
+            if k == "y":
+                if unhx(v) != out + out:
+                    return ("a literal wrapped in an inline placeable (as a function argument, and nested in a placeable) gave %s, "
+                            "the direct call gives %s (expected twice)" % (v, sp[1]))
+                continue
             if k == "q" and out == b"a":
                 if unhx(v) != b"A":
                     return "a literal decoding to `a` used as selector did not select [a]: %s" % v
